@@ -36,7 +36,7 @@ theorem creds_get_map (h k : Val) (v : Cred) : ∀ cr : Creds,
   | cons e r ih =>
     unfold Creds.get at ih ⊢
     by_cases he : e.1 = h <;> by_cases hk : k = h <;> by_cases hek : e.1 = k <;>
-      simp_all [List.find?_cons]
+      simp_all
 
 /-- Reading a dictionary after one assignment. -/
 theorem creds_get_set (cr : Creds) (h k : Val) (v : Cred) :
@@ -66,7 +66,7 @@ theorem creds_get_set (cr : Creds) (h k : Val) (v : Cred) :
         | some e => rw [hf] at hn; cases hn
       simp [this]
     · have : (h == k) = false := by simpa using fun e => hk e.symm
-      simp [hk, List.find?_cons, this]
+      simp [hk, this]
 
 /-! ## 31. The knowledge covers the configuration -/
 
